@@ -186,6 +186,12 @@ func VerifC05Holes() {
 	for i := 0; i < w; i++ {
 		src[pos+i] = hole[i]
 	}
+	verifC05CompileAll(src)
+}
+
+// verifC05CompileAll: src compiled as a script, as an Eval fragment and as an
+// imported module, with every combination of optimizer and trace options.
+func verifC05CompileAll(src []byte) {
 	mode := verifrt.Choice("mode", 3) // 0 Compile, 1 Eval fragment, 2 as an imported module
 	opts := CompilerOptions{NoOptimize: verifrt.Choice("noopt", 2) == 1}
 	if verifrt.Choice("trace", 2) == 1 {
@@ -229,4 +235,21 @@ func VerifC05Holes() {
 		verifrt.Reached("compiled")
 	}
 	verifrt.Reached("end")
+}
+
+// lexical and syntactic states in which the source may end
+var verifC05Prefixes = [...]string{
+	"/*", "/* x", "//", "\"ab", "\"\\", "`raw", "'a", "'\\", "1", "1.", "1e", "0x", "0b1", "x.", "x[", "f(",
+	"a +", "x :=", "if a {", "func(", "{a:", "[1,", "x ?", "import(\"m\"", "try {", "for ", "1u", "a..", "x /",
+	"..", "#", "\xef\xbb\xbf", "\r", "a\r\n/*", "x = `", "/**", "a /*\r", "'\\u12", "\"\\x4", "0o", "1_", "a?.",
+}
+
+// VerifC05Tail: a source that ends, in one of the lexical/syntactic states
+// above, with k arbitrary bytes (SMT variables): the scanner's and parser's
+// end-of-input handling for every continuation of up to k bytes.
+func VerifC05Tail() {
+	pre := verifC05Prefixes[verifrt.Param("prefix")]
+	k := verifrt.Param("k")
+	src := append([]byte(pre), verifrt.Bytes("t", k)...)
+	verifC05CompileAll(src)
 }
